@@ -378,7 +378,8 @@ func (r *Run) DoCmd(c Cmd) *Proc {
 			r.viol("C12", "history-prefix", c.Op, "%s rewrote history: %s", c.String(), why)
 		}
 	}
-	if okw, why := wholeLines(post.LogBytes); !okw {
+	preWhole, _ := wholeLines(pre.LogBytes)
+	if okw, why := wholeLines(post.LogBytes); !okw && (preWhole || logChanged) {
 		r.viol("C02", "whole-lines", c.Op, "after %s: %s", c.String(), why)
 	}
 
